@@ -602,7 +602,7 @@ def PM(
         el_input = np.ones(op_input.len()) * el_input
     elif isinstance(el_input, electrical_signal):
         el_input = el_input.signal
-        if el_input.size != op_input.signal.len():
+        if el_input.size != op_input.len():
             raise ValueError(
                 "The length of `el_input` must be equal to the length of `op_input`."
             )
